@@ -105,27 +105,53 @@ def cmd_run(ids, tier):
     ids = ids or all_ids
     res_path = os.path.join(SEEDED, "RESULTS.json")
     results = json.load(open(res_path)) if os.path.exists(res_path) else {}
-    rc, st = sh(["git", "-C", "/repo", "status", "--porcelain", "--untracked-files=no"])
-    assert st.strip() == "", "/repo has uncommitted changes:\n" + st
+    inplace = os.environ.get("SEEDED_INPLACE") == "1"
+    if inplace:
+        rc, st = sh(["git", "-C", "/repo", "status", "--porcelain", "--untracked-files=no"])
+        assert st.strip() == "", "/repo has uncommitted changes:\n" + st
     for sid in ids:
         d = os.path.join(SEEDED, sid)
         meta = json.load(open(os.path.join(d, "meta.json")))
         props = meta.get("checks") or [meta["property"]]
-        rc, out = sh(["git", "-C", "/repo", "apply", os.path.join(d, "patch.diff")])
+        # default: a scratch worktree of /repo's HEAD with the change applied, handed to the check through
+        # PYTHONPATH / RNAPOLIS_SRC (does not disturb other work running against /repo); SEEDED_INPLACE=1 applies
+        # the patch to /repo itself and undoes it afterwards
+        if inplace:
+            tree = "/repo"
+        else:
+            tree = tempfile.mkdtemp(prefix="seedrun-", dir="/tmp")
+            os.rmdir(tree)
+            rc, out = sh(["git", "-C", "/repo", "worktree", "add", "-q", tree, "HEAD"])
+            assert rc == 0, out
+        rc, out = sh(["git", "-C", tree, "apply", os.path.join(d, "patch.diff")])
+        if rc != 0:
+            rc, out = sh(["git", "-C", tree, "apply", "-C1", os.path.join(d, "patch.diff")])
         if rc != 0:
             results[sid] = {"error": "patch does not apply: " + out[-300:]}
+            print(sid, "PATCH DOES NOT APPLY")
+            if not inplace:
+                sh(["git", "-C", "/repo", "worktree", "remove", "--force", tree])
             continue
         try:
             entry = {}
+            env = dict(os.environ)
+            if not inplace:
+                env["PYTHONPATH"] = os.path.join(tree, "src")
+                env["RNAPOLIS_SRC"] = os.path.join(tree, "src", "rnapolis")
             for prop in props:
-                rc, out = sh([os.path.join(VERIF, "check"), prop, tier], cwd=VERIF, timeout=3600)
+                p = subprocess.run([os.path.join(VERIF, "check"), prop, tier], cwd=VERIF, env=env, stdout=subprocess.PIPE,
+                                   stderr=subprocess.STDOUT, timeout=3600)
+                rc, out = p.returncode, p.stdout.decode(errors="replace")
                 vio = [l for l in out.splitlines() if l.startswith("VIOLATION")]
                 entry[prop] = {"exit": rc, "violation_lines": vio[:6], "detected": rc == 1 and bool(vio),
                                "with_failing_input": any("no-failing-input-found" not in l for l in vio), "tail": out.splitlines()[-1:] }
             results[sid] = entry
-            print(sid, {p: ("DETECTED" + ("" if e["with_failing_input"] else " (obligation only)") if e["detected"] else "MISSED exit=%s" % e["exit"]) for p, e in entry.items()})
+            print(sid, {p: ("DETECTED" + ("" if e["with_failing_input"] else " (obligation only)") if e["detected"] else "MISSED exit=%s" % e["exit"]) for p, e in entry.items()}, flush=True)
         finally:
-            sh(["git", "-C", "/repo", "checkout", "--", "."])
+            if inplace:
+                sh(["git", "-C", "/repo", "checkout", "--", "."])
+            else:
+                sh(["git", "-C", "/repo", "worktree", "remove", "--force", tree])
     json.dump(results, open(res_path, "w"), indent=1)
     # leave generated tables in the state of the unchanged tree
     sh(["/venv/bin/python", os.path.join(VERIF, "tools", "gen_tables.py")])
